@@ -302,7 +302,8 @@ def operand(path, s):
                 return rv
         o = Obj('const:' + c)
         return o
-    raise Exception('operand ' + s)
+    # function items / other zero-sized values passed by name
+    return Obj('item:' + s[:60])
 
 
 def path_deref_frame(path, ref, fn):
